@@ -391,6 +391,10 @@ def run_case(desc):
             for out in outs:
                 roots = daggen.needed_roots(case, out)
                 K = {r: f"v_{r}" for r in roots if not (r in case["defaults"] and rng.random() < 0.5)}
+                if i % 5 == 3:
+                    # input values that are namedtuples (container subclasses): evaluate() hands the functions equal values
+                    K = {r: probes.PointNT(x, 1) for r, x in K.items()}
+                    v.count("requests_with_namedtuple_inputs")
                 for use_dag in ((False, True, True, False) if cached else (False, True)):
                     check_output(v, case, lazy_p, eager_p, llog, elog, out, K, "roots" + (f"/cache={ctype}" if cached else ""), use_dag, cached=cached)
                 if cached:
